@@ -155,8 +155,8 @@ func (c *Ctx) enumName(n int64) (string, bool) {
 type decodeInfo struct {
 	fn        *ssa.Function
 	tp        ssa.Value
-	newCall   *ssa.Call          // tensor.New(...) on the load path
-	valuesPhi ssa.Value          // the decoded values handed to WithBacking
+	newCall   *ssa.Call                  // tensor.New(...) on the load path
+	valuesPhi ssa.Value                  // the decoded values handed to WithBacking
 	caseOf    map[*ssa.BasicBlock]string // case body block -> ONNX type
 	getter    map[string]*ssa.Function
 }
